@@ -2,6 +2,9 @@
 """Print the prompt for a seeding sub-agent: property text + its scratch worktree. Nothing from /verif's machinery."""
 import json, sys
 pid, wt = sys.argv[1], sys.argv[2]
+k1 = int(sys.argv[3]) if len(sys.argv) > 3 else 1
+k2 = k1 + 1
+ROUND2 = '' if k1 == 1 else (' Other engineers have already delivered the most obvious breakages for this property (a flipped comparison, a dropped check or a changed constant in the most central function). Find LESS OBVIOUS ones: helper functions, sibling implementations of the same interface, callers and wiring, initialisation / configuration / teardown paths, rarely taken branches, error paths, or a second site that must stay consistent with a first.')
 for l in open('/verif/properties.jsonl'):
     p = json.loads(l)
     if p['id'] == pid:
@@ -18,9 +21,9 @@ Quantified over: {p['quantifier']['text']}
 Code areas involved: {', '.join(p['anchors']['files'])}
 
 TASK
-Produce TWO different, independent changes (variant 1 and variant 2) to the library source under {wt}/xknx, each of which BREAKS the property above while (a) the package still imports/compiles, and (b) the existing test suite still passes exactly as before (same 2 pre-existing failures only, no new failures). Each change should look like something a developer could plausibly introduce (a refactor, an 'optimisation', an off-by-one, a reordered statement, a narrowed/widened condition, a guard moved, a handler changed ...), NOT an obviously malicious edit, and it must need something SPECIFIC to manifest: a particular interleaving or schedule, a fault at a particular point, a multi-step sequence of operations, an unusual input, a particular configuration, or two cooperating sites that each look fine alone. Changes that ordinary use would expose at once are not wanted. Prefer the two variants to break different clauses of the property and to touch different functions. Keep each change small (a few lines).
+Produce TWO different, independent changes (variant {k1} and variant {k2}) to the library source under {wt}/xknx, each of which BREAKS the property above while (a) the package still imports/compiles, and (b) the existing test suite still passes exactly as before (same 2 pre-existing failures only, no new failures). Each change should look like something a developer could plausibly introduce (a refactor, an 'optimisation', an off-by-one, a reordered statement, a narrowed/widened condition, a guard moved, a handler changed ...), NOT an obviously malicious edit, and it must need something SPECIFIC to manifest: a particular interleaving or schedule, a fault at a particular point, a multi-step sequence of operations, an unusual input, a particular configuration, or two cooperating sites that each look fine alone. Changes that ordinary use would expose at once are not wanted. Prefer the two variants to break different clauses of the property and to touch different functions. Keep each change small (a few lines).{ROUND2}
 
-For each variant k in (1, 2) deliver, in {wt}:
+For each variant k in ({k1}, {k2}) deliver, in {wt}:
   - variant<k>.diff : `git diff` output against HEAD containing ONLY the change to files under xknx/ (apply-able with `git apply` on a clean checkout)
   - demo<k>.py      : a demonstration (pytest-style test file runnable with `/venv/bin/python -m pytest -q -p no:cacheprovider demo<k>.py`, or a plain script exiting non-zero on failure) that FAILS with variant k applied and PASSES on the unchanged tree. It should exercise the real library code (real classes/functions, asyncio where needed, mocks only at the network boundary), showing the property violation through observable behaviour.
   - a section in SEED_REPORT.md: which clause of the property it breaks and why, what it needs in order to manifest, the exact commands you ran and their results (demo on changed tree = fail, demo on clean tree = pass, full suite on changed tree = only the 2 pre-existing failures).
